@@ -17,7 +17,7 @@ from cidersim.prng import Digest, Rng, derive
 LEVEL = "exploration"
 PROP = "C10"
 GROUPS = ["sim", "simtrace"]
-BUDGET = {"quick": 200, "thorough": 2400}
+BUDGET = {"quick": 300, "thorough": 3000}
 CASE_TIMEOUT = int(os.environ.get("VERIF_CASE_TIMEOUT", "420"))
 TEAMS = [2, 3, 4, 5, 7, 8, 13, 16, 17, 32, 61]
 TEAM_W = [6, 5, 6, 3, 4, 5, 2, 4, 2, 2, 1]
@@ -115,17 +115,18 @@ def plan(tier, seed, args):
         }
     else:
         table = {
-            "nldf_gen": (150, 6, 60, 3),
-            "nldf_grad": (80, 6, 40, 3),
-            "evaluators": (100, 8, 80, 6),
-            "sdmx": (120, 6, 60, 4),
-            "debug_numint": (60, 8, 50, 6),
-            "plan_coefs": (120, 8, 80, 6),
-            "e2e": (60, 3, 12, 2),
-            "vxc_numint": (40, 8, 40, 8),
-            "pbc_helpers": (60, 8, 60, 8),
-            "atc_misc": (60, 8, 60, 8),
+            "nldf_gen": (500, 6, 400, 8),
+            "nldf_grad": (300, 6, 300, 8),
+            "evaluators": (300, 8, 300, 8),
+            "sdmx": (400, 6, 300, 8),
+            "debug_numint": (150, 8, 150, 8),
+            "plan_coefs": (400, 8, 300, 8),
+            "e2e": (200, 3, 60, 3),
+            "vxc_numint": (100, 8, 100, 8),
+            "pbc_helpers": (200, 8, 200, 8),
+            "atc_misc": (300, 8, 300, 8),
         }
+
     if args.cases is not None:
         table = {k: (args.cases, v[1], max(1, args.cases // 2), v[3]) for k, v in table.items()}
     for wl, (n_sim, k_sim, n_tr, k_tr) in table.items():
